@@ -373,7 +373,11 @@ def rule_network(ck):
     for r in rets:
         if isinstance(r.expr, ast.Constant) and r.expr.value is True:
             good = False
+            from ..rules import emptiness
+            if any(emptiness(gl, r, cont) == "empty" for cont in ("self.magnitudes", "self.constraint_index", "self.constraint_matrix")):
+                good = True
             for a, t in facts_at(gl, r):
+                a = gl.expand(a, r)
                 c = cmp_norm(a, t)
                 s = canon(a)
                 if (s in ("len(self.magnitudes)", "self.magnitudes.size", "len(self.constraint_index)") and not t) or \
